@@ -81,6 +81,8 @@ class FeUse:
         self.changed = False
         self.private = []
         self.sites = {}
+        self.env = None
+        self.strong = True
 
     # ---- types
     def field_type(self, cont, idx, variant=0):
@@ -145,6 +147,8 @@ class FeUse:
             return None
         if cont is not None:
             return self.FL.get(cont, 1)
+        if self.env is not None and not (1 <= place[0] <= fn.argc and False):
+            return self.env.get(place[0], self.LV.get((fn.id, place[0]), 1) if place[0] <= fn.argc else 1)
         return self.LV.get((fn.id, place[0]), 1)
 
     def raise_(self, fn, place, lvl, seen=None):
@@ -160,7 +164,17 @@ class FeUse:
                 self.changed = True
             return
         k = (fn.id, place[0])
-        if self.LV.get(k, 1) < lvl:
+        if self.env is not None:
+            # flow-sensitive within the function: a whole-place assignment to a local is a strong update
+            if not place[1] and self.strong:
+                self.env[place[0]] = lvl
+            else:
+                self.env[place[0]] = max(self.env.get(place[0], 1), lvl)
+            if place[0] == 0 or place[0] <= fn.argc:
+                if self.LV.get(k, 1) < self.env[place[0]]:
+                    self.LV[k] = self.env[place[0]]
+                    self.changed = True
+        elif self.LV.get(k, 1) < lvl:
             self.LV[k] = lvl
             self.changed = True
         if place[1] and place[1][0] == "*":
@@ -168,7 +182,9 @@ class FeUse:
             for tgt in self.refs.get(k, ()):
                 if tgt not in seen:
                     seen.add(tgt)
+                    st, self.strong = self.strong, False
                     self.raise_(fn, [tgt[0], list(tgt[1])], lvl, seen)
+                    self.strong = st
 
     def operand(self, fn, op):
         if op[0] == "k":
@@ -188,8 +204,38 @@ class FeUse:
 
     # ---- transfer
     def step(self, fn):
+        """forward dataflow over the CFG: env = level of each Fe-ish local at block entry (join = max)"""
+        succ = fn.cfg()[0]
+        entry = {}
+        for a in range(1, fn.argc + 1):
+            entry[a] = self.LV.get((fn.id, a), 1)
+        ins = {0: entry}
+        work = [0]
+        rounds = 0
+        while work and rounds < 4000:
+            rounds += 1
+            b = work.pop(0)
+            self.env = dict(ins[b])
+            self.block(fn, b)
+            out = self.env
+            for nb in succ.get(b, ()) if isinstance(succ, dict) else succ[b]:
+                cur = ins.get(nb)
+                if cur is None:
+                    ins[nb] = dict(out)
+                    work.append(nb)
+                else:
+                    ch = False
+                    for k, v in out.items():
+                        if cur.get(k, 0) < v:
+                            cur[k] = v
+                            ch = True
+                    if ch and nb not in work:
+                        work.append(nb)
+        self.env = None
+
+    def block(self, fn, b):
         P = self.P
-        for b in sorted(fn.reachable()):
+        if True:
             for s in fn.stmts(b):
                 if s[0] != "=":
                     continue
@@ -245,7 +291,7 @@ class FeUse:
                             self.raise_(fn, pl, max(lv))
             t = fn.term(b)
             if t[0] != "call":
-                continue
+                return
             from ..mir import Call
             c = Call(fn, b, t)
             nm = c.name()
